@@ -1027,10 +1027,18 @@ class eigenbasis_of(basis_context_manager):
     def __init__(self, operator):
         super().__init__()
         self.op = operator
-        self.manager.store_current_basis_operator(self.op)
+        # operators which defined the basis before this context was entered
+        # (one per entry: the same context object may be entered again)
+        self._op_backup = []
         
         
     def __enter__(self):
+
+        # the operator which defines the basis changes when the context is 
+        # entered (not when the context object is created) and the previous
+        # one comes back when the context is left
+        self._op_backup.append(self.manager.current_basis_operator)
+        self.manager.store_current_basis_operator(self.op)
 
         self.manager._in_eigenbasis_of_context = True
         
@@ -1093,7 +1101,7 @@ class eigenbasis_of(basis_context_manager):
                 if op not in ops_above:
                     self.manager.register_with_basis(nb,op)
             
-        self.manager.remove_current_basis_operator()
+        self.manager.store_current_basis_operator(self._op_backup.pop())
             
         del self.manager.basis_registered[bb]
 
